@@ -36,10 +36,10 @@ STUB = []
 ASSUMPTIONS = ['a refused rename leaves the renamed wire unregistered: outside the statement, the model follows the library there']
 PROBES = ['refused_second_driver', 'refused_dup_child', 'refused_dup_wire_create', 'refused_dup_wire_rename',
           'refused_dup_wire_reparent', 'accepted_op', 'integrity_accept', 'integrity_missing_driver', 'integrity_dup_driver',
-          'structural_second_driver']
+          'structural_second_driver', 'same_block_second_driver', 'integrity_recheck_after_edit']
 
 NAMES = ['a', 'b', 'c', 'x', 'y']
-BLK = ['Buf', 'Not', 'And2', 'Reg', 'Constant', 'Add', 'Mux2', 'Counter']
+BLK = ['Buf', 'Not', 'And2', 'Reg', 'Constant', 'Add', 'Mux2', 'Counter', 'Bits2']
 
 
 class Grp(Logic):
@@ -142,7 +142,11 @@ def run_ops(scn, log, st):
             ws = [wlist[i % len(wlist)] for i in op['ins']]
             out = wlist[op['out'] % len(wlist)]
             name_conflict = nm in pc
-            drv_conflict = driver.get(id(out)) is not None
+            drv_conflict = driver.get(id(out)) is not None or bk == 'Bits2'
+            if bk == 'Bits2':
+                two_bit = next((w for w in wlist if w.getWidth() >= 2), None)
+                if two_bit is None:
+                    continue
             old_child = pc.get(nm)
             old_src = out.source
 
@@ -161,6 +165,9 @@ def run_ops(scn, log, st):
                     return py4hw.Add(p, nm, ws[0], ws[1], out)
                 if bk == 'Mux2':
                     return py4hw.Mux2(p, nm, ws[0], ws[1], ws[2], out)
+                if bk == 'Bits2':
+                    # one primitive driving the same wire from two of its output ports: a second driver like any other
+                    return py4hw.BitsLSBF(p, nm, two_bit, [out] * two_bit.getWidth())
                 return py4hw.Counter(p, nm, ws[0], ws[1], out)
             what = 'dup-child' if name_conflict else 'second-driver'
             if bk in ('Add', 'Counter') and not name_conflict and not drv_conflict:
@@ -180,7 +187,10 @@ def run_ops(scn, log, st):
                 if bk in ('Add', 'Counter'):
                     st.probe('structural_second_driver')
                 refused += 1
-                if out.source is not old_src:
+                if bk == 'Bits2' and old_src is None:
+                    st.probe('same_block_second_driver')
+                    driver[id(out)] = out.source        # the first of the two ports registered (outside the statement)
+                elif out.source is not old_src:
                     raise Violation('earlier-lost', 'earlier-driver-replaced', si, 'driver of %s replaced by a refused call' % out.getFullPath())
                 # outside the statement: the half-built child stays registered; follow the library
                 if nm in p.children:
@@ -332,6 +342,19 @@ def run_integrity(scn, log, st):
     else:
         st.probe('integrity_accept')
         st.nontrivial = True
+        # check -> edit -> check: an undriven leaf added inside an already accepted block must be reported by the next check
+        parents = [o for o in seams.walk(b.dut) if isinstance(o, (netlist.Grp, netlist.Dut))]
+        par = parents[pick % len(parents)]
+        und = par.wire('late_undriven', 3)
+        py4hw.Buf(par, 'late_buf', und, par.wire('late_out', 3))
+        try:
+            with quiet():
+                py4hw.debug.checkIntegrity(b.hw)
+        except Exception:
+            st.probe('integrity_recheck_after_edit')
+        else:
+            raise Violation('integrity', 'integrity:accepted-undriven:after-edit', 2,
+                            'checkIntegrity accepted the hierarchy again after a leaf with an undriven input was added to %s' % par.getFullPath())
     log.add('integrity', fault, bool(raised), h64(repr(d['nodes'])))
     if fault != 'none':
         st.fault(fault)
